@@ -4,7 +4,7 @@
    wall clock, mixin recursion and import cycles are decided by the correspondence with a per-case time limit. *)
 From Coq Require Import String.
 From Coq Require Import List Ascii Bool NArith.
-Require Import Model.Text Model.Ast Model.Scope Model.Ident Model.Fmt Model.Eval Gen.PLimits Proofs.TermProofs.
+Require Import Model.Text Model.Ast Model.Scope Model.Ident Model.Fmt Model.Eval Gen.PLimits Proofs.EvalProofs Proofs.TermProofs Proofs.RunawayProofs.
 Import ListNotations.
 
 (* variables defined in terms of each other — a cycle of any length and shape — are reported (fuel exhausted),
@@ -19,6 +19,35 @@ Theorem C20_chain_terminates :
   forall sc k x out, chain sc k x out -> forall extra, eval_value (S k + extra) sc [VVar x] = ROk out.
 Proof. exact chain_evaluates. Qed.
 Print Assumptions C20_chain_terminates.
+
+(* mixins that call each other without a base case (every definition: no parameter; literal declarations, then an unconditional
+   call of some definition of the sheet) are reported for EVERY depth limit: cycles of any length, any shape of call graph *)
+Theorem C20_runaway_mixins_reported :
+  forall defs, Forall (runaway defs) defs ->
+    forall fuel name parent sc, In name (map m_name defs) -> is_err (call_mixin defs fuel name [] parent sc).
+Proof. exact runaway_reported. Qed.
+Print Assumptions C20_runaway_mixins_reported.
+
+(* non-vacuity: a cycle of three, one of them with declarations before the call and statements after it; at the code's limit the
+   whole compilation is an error *)
+Definition c20_cycle : list mixin_def :=
+  [MkMixin $".a" [] [NProp $"w" [VT $"1"] false; NCall $".b" []];
+   MkMixin $".b" [] [NCall $".c" []; NProp $"x" [VT $"2"] false];
+   MkMixin $".c" [] [NCall $".a" []]].
+Example C20_runaway_nonvacuous :
+  Forall (runaway c20_cycle) c20_cycle /\
+  compile_nodes (false, false, false, 1)
+    [NMixin $".a" [] [NProp $"w" [VT $"1"] false; NCall $".b" []]; NMixin $".b" [] [NCall $".c" []; NProp $"x" [VT $"2"] false];
+     NMixin $".c" [] [NCall $".a" []]; NBlock [$".r"] [NCall $".b" []]]
+  = RError $"SyntaxError" $"NameError .a".
+Proof.
+  split.
+  - repeat constructor; cbn.
+    + exists [NProp $"w" [VT $"1"] false], $".b", []. repeat split; auto. constructor; [reflexivity|constructor].
+    + exists [], $".c", [NProp $"x" [VT $"2"] false]. repeat split; auto.
+    + exists [], $".a", []. repeat split; auto.
+  - vm_compute. reflexivity.
+Qed.
 
 (* the limits the code enforces, re-read from the source on every run *)
 Theorem C20_limits : (process_round_limit, mixin_depth_limit, import_depth_limit) = (64, 64, 8) /\ recursion_error_reported = true.
